@@ -5,17 +5,19 @@
 (* mgr[h]   : the gateway's name table (manager.clusters): name -> cluster, or None                         *)
 (* applied[c]: the names the gateway currently serves cluster c under (its ClusterInfo), or Absent          *)
 (* queue    : events delivered by the informer, FIFO, single worker; an event carries the object it was     *)
-(*            created for; a failed sync is requeued (at most 3 times) behind the events that arrived since  *)
+(*            created for; a failed sync is requeued (MaxTries times here, see below) behind the events that arrived since  *)
 (* L1 follows UpstreamClusterController.syncUpstreamCluster.  Variant "event": the worker applies the event's *)
 (* object and requeues it on a name conflict, also when a newer version exists (pinned tree: the retried,     *)
 (* superseded version is later applied over the latest one).  "lister": always apply the lister's current     *)
 (* object (refuted: two clusters swapping aliases dead-lock).  "dropstale": apply the event's object in       *)
 (* order, but do not retry a version that has been superseded (repaired tree).                                *)
+(* MaxTries: the implementation retries a refused version every 5 s FOR EVER (the bounded requeue goes through AddAfter, which does     *)
+(* not count: SyncQueue.tla, bound to pkg/syncqueue by TraceSyncQueue); the bound only keeps this model finite.                        *)
 (* The admission plugin only admits objects whose names do not collide with another cluster's CURRENT        *)
 (* object, which is what Submit requires.                                                                     *)
 EXTENDS Naturals, Sequences, FiniteSets, TLC
 
-CONSTANTS Clusters, Aliases, Variant, MaxEvents, Admission, Tombstones     \* Admission = FALSE: objects whose names collide with another cluster's reach the gateway too
+CONSTANTS Clusters, Aliases, Variant, MaxEvents, Admission, Tombstones, MaxTries     \* Admission = FALSE: objects whose names collide with another cluster's reach the gateway too
 Absent == {"#absent"}     \* (a set, like every other value of api/applied)
 None == "none"
 Hosts == Clusters \cup Aliases
@@ -56,7 +58,7 @@ Work ==
                /\ applied' = [applied EXCEPT ![c] = Absent] /\ queue' = Tail(queue)
           ELSE LET new == NamesOf(c, obj) IN
                IF Conflict(c, new)                                             \* checkUpstreamServerNameConflict -> requeue
-                 THEN /\ queue' = IF e.tries < 3 /\ ~(Variant = "dropstale" /\ e.obj # api[c])     \* "dropstale": a superseded version is not retried
+                 THEN /\ queue' = IF e.tries < MaxTries /\ ~(Variant = "dropstale" /\ e.obj # api[c])     \* "dropstale": a superseded version is not retried
                                      THEN Append(Tail(queue), [e EXCEPT !.tries = @ + 1]) ELSE Tail(queue)
                       \* "rewrite" (refuted by DeletedStop): the cluster's remembered names are overwritten BEFORE the conflict is found
                       /\ applied' = IF Variant = "rewrite" /\ applied[c] # Absent THEN [applied EXCEPT ![c] = new] ELSE applied
